@@ -32,7 +32,7 @@ struct Task { std::vector<uint16_t> prefix; uint32_t floor = 0; };
 
 int alt_cost(const PointRec& p, uint32_t alt) {
   if (alt == 0) return 0;
-  if (p.flags & PF_PREEMPT) return 1;
+  if (p.flags & (PF_PREEMPT | PF_COSTALL)) return 1;
   if ((p.flags & PF_LASTCOST) && alt == (uint32_t)p.n - 1) return 1;
   return 0;
 }
@@ -105,6 +105,7 @@ struct Options {
   bool cache = true;
   uint64_t max_steps = 200000;
   uint64_t cache_bits = 21;
+  bool tso = false, spurious = false;
 };
 
 [[noreturn]] void worker_main(const HarnessInfo& h, int fd, int slot, const Options& opt) {
@@ -393,7 +394,7 @@ struct Explorer {
   BoundStats explore_bound(int bound) {
     BoundStats bs; bs.bound = bound;
     double t0 = now_s();
-    g_cfg.bound = bound; g_cfg.use_cache = opt.cache && !h.sequential; g_cfg.max_steps = opt.max_steps;
+    g_cfg.bound = bound; g_cfg.use_cache = opt.cache && !h.sequential; g_cfg.max_steps = opt.max_steps; g_cfg.tso = opt.tso; g_cfg.spurious = opt.spurious;
     g_ctl->states = 0; g_ctl->stop = 0; g_ctl->cache_full = 0;
     if (g_cache && madvise(g_cache, cache_bytes, MADV_REMOVE) != 0) std::memset((void*)g_cache, 0, cache_bytes);  // zero the shared table
     queue.clear();
@@ -553,7 +554,7 @@ std::string replay_once(const HarnessInfo& h, const std::vector<uint16_t>& choic
     int efd = ::open(errpath.c_str(), O_CREAT | O_TRUNC | O_WRONLY, 0644);
     if (efd >= 0) { dup2(efd, 2); close(efd); }
     g_rec = rec;
-    g_cfg.bound = 1 << 20; g_cfg.use_cache = false; g_cfg.max_steps = opt.max_steps;
+    g_cfg.bound = 1 << 20; g_cfg.use_cache = false; g_cfg.max_steps = opt.max_steps; g_cfg.tso = opt.tso; g_cfg.spurious = opt.spurious;
     run_once(h, choices.data(), (uint32_t)choices.size());
     _exit(0);
   }
@@ -602,6 +603,8 @@ int main_driver(int argc, char** argv) {
     else if (a == "--max-steps") opt.max_steps = (uint64_t)std::atoll(next().c_str());
     else if (a == "--hang-timeout") opt.hang_timeout = std::atof(next().c_str());
     else if (a == "--stderr-dir") opt.stderr_dir = next();
+    else if (a == "--tso") opt.tso = true;
+    else if (a == "--spurious") opt.spurious = true;
     else if (a == "--cache-bits") opt.cache_bits = (uint64_t)std::atoi(next().c_str());
     else { std::fprintf(stderr, "unknown option %s\n", a.c_str()); return 2; }
   }
